@@ -94,3 +94,83 @@ func (c *Ctx) ruleSingularMsgReuse(rule string, floor int) {
 	}
 	_ = types.Typ
 }
+
+// R-REFL-MSG-MERGE: the reflective decoder (package proto) has to merge a
+// second occurrence of a singular message field, group, or MessageSet item
+// into the message the first occurrence produced, as the table-driven decoder
+// does. That is visible in where the target of unmarshalMessage comes from:
+// m.Mutable(fd) for singular fields; a fresh list element or map value for
+// repeated fields and map entries. A target obtained from m.NewField(fd) and
+// stored with m.Set replaces what was decoded before.
+func (c *Ctx) ruleReflMsgMerge(rule string, floor int) {
+	R, P := c.R, c.P
+	R.Rule(rule, "every target of UnmarshalOptions.unmarshalMessage in package proto derives from Message.Mutable (singular field, group, MessageSet item: merge), List.NewElement or Map.NewValue (fresh element of a repeated field / map entry); never from Message.NewField", floor)
+	for _, fi := range P.FuncsIn("proto") {
+		if fi.Decl.Body == nil {
+			continue
+		}
+		info := fi.Info()
+		defs := localDefs(fi.Decl.Body, info)
+		var origin func(e ast.Expr, depth int) string
+		origin = func(e ast.Expr, depth int) string {
+			if depth > 6 {
+				return ""
+			}
+			switch x := unparen(e).(type) {
+			case *ast.CallExpr:
+				if se, ok := x.Fun.(*ast.SelectorExpr); ok {
+					switch se.Sel.Name {
+					case "Mutable", "NewElement", "NewValue", "NewField", "AppendMutable":
+						return se.Sel.Name
+					case "Message":
+						return origin(se.X, depth+1)
+					}
+				}
+			case *ast.Ident:
+				// a variable may also be assigned scalars on other paths (unmarshalMap's
+				// val): NewField anywhere decides; otherwise any recognised origin
+				o := info.Uses[x]
+				res := ""
+				for _, d := range defs[o] {
+					r := origin(d.rhs, depth+1)
+					if r == "NewField" {
+						return r
+					}
+					if r != "" {
+						res = r
+					}
+				}
+				return res
+			}
+			return ""
+		}
+		i := 0
+		walkAll(fi.Decl.Body, func(n ast.Node) bool {
+			call, ok := n.(*ast.CallExpr)
+			if !ok || len(call.Args) != 2 {
+				return true
+			}
+			k := calleeKey(info, call)
+			if k != "proto.UnmarshalOptions.unmarshalMessage" && k != "proto.UnmarshalOptions.unmarshalMessageSlow" {
+				return true
+			}
+			// top-level entry points pass the caller's message through
+			if id, ok := unparen(call.Args[1]).(*ast.Ident); ok {
+				if _, isParam := info.Uses[id].(*types.Var); isParam && len(defs[info.Uses[id]]) == 0 {
+					return true
+				}
+			}
+			i++
+			key := fi.Key + " decode target#" + itoa(i)
+			switch o := origin(call.Args[1], 0); o {
+			case "Mutable", "NewElement", "NewValue", "AppendMutable":
+				R.OK(rule, key, P.Pos(call), "target from "+o)
+			case "NewField":
+				R.Bad(rule, key, P.Pos(call), "the submessage is decoded into a value obtained from NewField (and stored with Set afterwards): a second occurrence of the field, or a second MessageSet item with the same type id, or Unmarshal with Merge, replaces what was decoded before instead of merging into it; the table-driven decoder merges")
+			default:
+				R.Unk(rule, key, P.Pos(call), "origin of the decode target `"+exprStr(call.Args[1])+"` not recognised")
+			}
+			return true
+		})
+	}
+}
